@@ -232,6 +232,31 @@ def check_one(tasks):
     return out, text
 
 
+def same_name_check():
+    """Two distinct task types with one name: two class blocks, each with its own parameters."""
+    out = []
+    a = G.GA(x=1)
+    for tasks in ([G.GV1(x=1), G.GV2(y=2, dep=a)], [G.GV2(y=2, dep=[a]), G.GV1(x=1)], [G.GD(p=[G.GV1(x=1), G.GV2(y=1, dep=a)])]):
+        try:
+            text = build_task_diagram(tasks)
+        except BaseException as e:  # noqa
+            out.append((f'raised:{type(e).__name__}', f'{tasks!r}: build_task_diagram raised {type(e).__name__}: {e}'))
+            continue
+        parsed = parse(text)
+        if parsed is None:
+            out.append(('unparseable', f'{tasks!r}: output is not a class diagram of the expected form'))
+            continue
+        classes, arrows = parsed
+        c = classes.get('GV', {'count': 0, 'members': []})
+        names = sorted(m.rsplit(' ', 1)[-1] for m in c['members'] if not m.startswith('run()'))
+        if c['count'] != 2 or names != ['dep', 'x', 'y']:
+            out.append(('class-missing', f'{tasks!r}: two distinct task types named GV are reachable; the diagram has {c["count"]} class blocks GV with parameters {names}'))
+        n_arrow = sum(1 for (x, f, y, many) in arrows if (x, f, y) == ('GV', 'dep', 'GA'))
+        if n_arrow != 1:
+            out.append(('arrow-missing' if n_arrow == 0 else 'arrow-duplicated', f'{tasks!r}: {n_arrow} arrows GV <-- GA: dep'))
+    return out
+
+
 def _work(batch):
     silence_labtech()
     res = []
@@ -260,6 +285,8 @@ def run(tier: str, seed: int) -> Result:
         hashes.update(dict(hs))
         for key, msg, idx in res:
             viols.append(Violation('C20', key, msg, {'tier': tier, 'input_index': idx, 'clause': key}, size=idx))
+    for key, msg in same_name_check():
+        viols.append(Violation('C20', key, msg[:600], {'tier': tier, 'clause': key}, size=3))
     seeds = (1,) if tier == 'quick' else (1, 2)
     for s in seeds:
         env = dict(os.environ, PYTHONHASHSEED=str(s))
